@@ -274,4 +274,548 @@ Proof.
     eauto using enter_ro_mode, woke_ro_mode, enter_rw_mode, woke_rw_mode, unlock_ro_mode, unlock_rw_mode.
 Qed.
 
+
+(* ---- frame: a transition of thread t leaves the table entries of every other thread alone ---- *)
+
+Record frame_ok (t : tid) (g g' : gst) : Prop := mkFrame {
+  fr_exec : forall k, k <> t -> find k (g_exec g') = find k (g_exec g);
+  fr_wr : forall k, k <> t -> memk k (g_wr g') = memk k (g_wr g);
+  fr_ww : forall k, k <> t -> memk k (g_ww g') = memk k (g_ww g)
+}.
+
+Lemma frame_refl : forall t g, frame_ok t g g.
+Proof. constructor; auto. Qed.
+
+Lemma frame_trans : forall t g1 g2 g3, frame_ok t g1 g2 -> frame_ok t g2 g3 -> frame_ok t g1 g3.
+Proof.
+  intros t g1 g2 g3 [A1 A2 A3] [B1 B2 B3]. constructor; intros k Hk.
+  - rewrite B1, A1; auto.
+  - rewrite B2, A2; auto.
+  - rewrite B3, A3; auto.
+Qed.
+
+Lemma frame_shape : forall t g g', same_shape g g' -> frame_ok t g g'.
+Proof.
+  intros t g g' [_ He _ Hr Hw _ _]. constructor; intros k _; [rewrite He|..]; auto.
+Qed.
+
+Lemma frame_leave_wr : forall t g, frame_ok t g (leave_wr t g).
+Proof.
+  intros t g. unfold leave_wr. destruct (find t (g_wr g)); [|apply frame_refl].
+  constructor; cbn; auto. intros k Hk. apply memk_remove_other; auto.
+Qed.
+
+Lemma frame_leave_ww : forall t g, frame_ok t g (leave_ww t g).
+Proof.
+  intros t g. unfold leave_ww. destruct (find t (g_ww g)); [|apply frame_refl].
+  constructor; cbn; auto. intros k Hk. apply memk_remove_other; auto.
+Qed.
+
+Lemma frame_mk : forall t g tot ex wr ww p,
+  (ex = g_exec g \/ (exists v, ex = setv t v (g_exec g)) \/ ex = remove t (g_exec g)) ->
+  (wr = g_wr g \/ exists c, wr = setv t c (g_wr g)) ->
+  (ww = g_ww g \/ exists c, ww = setv t c (g_ww g)) ->
+  frame_ok t g (mkG tot ex wr ww p).
+Proof.
+  intros t g tot ex wr ww p He Hr Hw. constructor; intros k Hk; cbn.
+  - destruct He as [->|[[v ->]| ->]]; auto using find_setv_other, find_remove_other.
+  - destruct Hr as [->|[c ->]]; auto using memk_setv_other.
+  - destruct Hw as [->|[c ->]]; auto using memk_setv_other.
+Qed.
+
+Lemma frame_maybe : forall t g g1, frame_ok t g g1 -> frame_ok t g (fst (maybe_notify pref g1)).
+Proof. intros. eapply frame_trans; eauto. apply frame_shape, maybe_notify_shape. Qed.
+
+Lemma cs_frame : forall t a g g' ns out, cs pref t a g = Some (g', ns, out) -> frame_ok t g g'.
+Proof.
+  intros t a g g' ns out H. destruct a; cbn [cs] in H; try discriminate; inversion H as [H1]; clear H.
+  - (* enter_ro *) break_cs H1; try apply frame_refl; unfold set_exec; apply frame_mk; eauto.
+  - (* enter_rw *) break_cs H1; try apply frame_refl; apply frame_mk; eauto.
+  - (* unlock_ro *)
+    unfold unlock_ro in H1. destruct (find t (g_exec g)) as [e|]; [|inversion H1; apply frame_refl].
+    destruct (e_ro e) as [|r]; [inversion H1; apply frame_refl|].
+    destruct (Nat.eqb r 0 && Nat.eqb (e_rw e) 0).
+    + destruct (maybe_notify pref (set_exec g (remove t (g_exec g)))) as [g2 ns2] eqn:E. inversion H1; subst.
+      change g' with (fst (g', ns)). rewrite <- E. apply frame_maybe. unfold set_exec. apply frame_mk; eauto.
+    + inversion H1; subst. unfold set_exec. apply frame_mk; eauto.
+  - (* unlock_rw *)
+    unfold unlock_rw in H1. destruct (find t (g_exec g)) as [e|]; [|inversion H1; apply frame_refl].
+    destruct (e_rw e) as [|w]; [inversion H1; apply frame_refl|].
+    match type of H1 with context [mkG ?a ?b ?c ?d ?e] => assert (Hf : frame_ok t g (mkG a b c d e)) end.
+    { apply frame_mk; auto. destruct (Nat.eqb w 0 && Nat.eqb (e_ro e) 0); eauto. }
+    match type of H1 with (let (_, _) := ?x in _) = _ => destruct x as [g2 ns2] eqn:E end.
+    inversion H1; subst. clear H1.
+    destruct (Nat.eqb (pred (g_total g)) 0).
+    + destruct (Nat.ltb 0 (e_ro e)).
+      * change g' with (fst (g', ns)). rewrite <- E. eapply frame_trans; [eauto|]. apply frame_shape, notify_all_readers_shape.
+      * match type of E with (if ?c then _ else _) = _ => destruct c end.
+        -- change g' with (fst (g', ns)). rewrite <- E. eapply frame_trans; [eauto|]. apply frame_shape, notify_some_shape.
+        -- inversion E; subst. auto.
+    + inversion E; subst. auto.
+  - (* woke_ro *)
+    unfold woke_ro in H1. destruct (negb ok).
+    + destruct (maybe_notify pref (leave_wr t g)) as [g2 ns2] eqn:E. inversion H1; subst.
+      change g' with (fst (g', ns)). rewrite <- E. apply frame_maybe, frame_leave_wr.
+    + destruct (ok_readers pref g); inversion H1; subst; [|apply frame_refl].
+      eapply frame_trans; [|apply frame_leave_wr]. unfold set_exec. apply frame_mk; eauto.
+  - (* woke_rw *)
+    unfold woke_rw in H1. destruct (negb ok).
+    + destruct (maybe_notify pref (leave_ww t g)) as [g2 ns2] eqn:E. inversion H1; subst.
+      change g' with (fst (g', ns)). rewrite <- E. apply frame_maybe, frame_leave_ww.
+    + destruct (ok_writer t g); inversion H1; subst; [|apply frame_refl].
+      eapply frame_trans; [|apply frame_leave_ww]. apply frame_mk; eauto.
+Qed.
+
+Lemma run_cs_frame : forall t g l g' l' o, run_cs pref t g l = Some (g', l', o) -> frame_ok t g g'.
+Proof.
+  intros t g l g' l' o. unfold run_cs.
+  destruct (cs pref t (l_act l) g) as [[[g1 ns] out]|] eqn:E; [|discriminate].
+  apply cs_frame in E.
+  destruct out; [destruct (complete l s)|..]; intros H; inversion H; subst; auto.
+Qed.
+
+Lemma step_frame : forall t c g l g' l' o, step pref t c g l = Some (g', l', o) -> frame_ok t g g'.
+Proof.
+  intros t c g l g' l' o. unfold step. destruct c.
+  - destruct (l_act l) eqn:Ha; try apply run_cs_frame.
+    + destruct (find t (g_wr g)) as [[|n]|]; try discriminate. intros H; inversion H; subst.
+      constructor; cbn; auto. intros k Hk. apply memk_setc.
+    + destruct (find t (g_ww g)) as [[|n]|]; try discriminate. intros H; inversion H; subst.
+      constructor; cbn; auto. intros k Hk. apply memk_setc.
+  - destruct (l_act l); try discriminate; destruct d; try discriminate; intros H; inversion H; apply frame_refl.
+Qed.
+
+
+(* ---- the thread that makes a transition stays consistent with the tables ---- *)
+
+Ltac mk_inv :=
+  repeat match goal with
+  | H : mk_ent _ _ = Some _ |- _ => apply mk_ent_some in H; destruct H
+  | H : Some _ = mk_ent _ _ |- _ => symmetry in H
+  | H : mk_ent _ _ = None |- _ => apply mk_ent_none in H; destruct H
+  | H : None = mk_ent _ _ |- _ => symmetry in H
+  end.
+
+Ltac break_all H :=
+  repeat match type of H with
+  | context [match ?x with _ => _ end] => destruct x eqn:?
+  end; try discriminate; inversion H; subst; clear H.
+
+
+
+
+Lemma leave_wr_exec : forall t g, g_exec (leave_wr t g) = g_exec g.
+Proof. intros. unfold leave_wr. destruct (find t (g_wr g)); reflexivity. Qed.
+Lemma leave_wr_ww : forall t g, g_ww (leave_wr t g) = g_ww g.
+Proof. intros. unfold leave_wr. destruct (find t (g_wr g)); reflexivity. Qed.
+Lemma leave_wr_total : forall t g, g_total (leave_wr t g) = g_total g.
+Proof. intros. unfold leave_wr. destruct (find t (g_wr g)); reflexivity. Qed.
+Lemma leave_wr_memk : forall t g, memk t (g_wr (leave_wr t g)) = false.
+Proof.
+  intros. unfold leave_wr. destruct (find t (g_wr g)) eqn:E; cbn.
+  - apply memk_remove_same.
+  - unfold memk. rewrite E. reflexivity.
+Qed.
+Lemma leave_ww_exec : forall t g, g_exec (leave_ww t g) = g_exec g.
+Proof. intros. unfold leave_ww. destruct (find t (g_ww g)); reflexivity. Qed.
+Lemma leave_ww_wr : forall t g, g_wr (leave_ww t g) = g_wr g.
+Proof. intros. unfold leave_ww. destruct (find t (g_ww g)); reflexivity. Qed.
+Lemma leave_ww_total : forall t g, g_total (leave_ww t g) = g_total g.
+Proof. intros. unfold leave_ww. destruct (find t (g_ww g)); reflexivity. Qed.
+Lemma leave_ww_memk : forall t g, memk t (g_ww (leave_ww t g)) = false.
+Proof.
+  intros. unfold leave_ww. destruct (find t (g_ww g)) eqn:E; cbn.
+  - apply memk_remove_same.
+  - unfold memk. rewrite E. reflexivity.
+Qed.
+
+Lemma maybe_leave_wr : forall t g g2 ns, maybe_notify pref (leave_wr t g) = (g2, ns) ->
+  g_exec g2 = g_exec g /\ memk t (g_wr g2) = false /\ memk t (g_ww g2) = memk t (g_ww g).
+Proof.
+  intros t g g2 ns E. pose proof (maybe_notify_shape pref (leave_wr t g)) as S. rewrite E in S. cbn [fst] in S.
+  destruct S as [_ He _ Hr Hw _ _]. rewrite He, Hr, Hw, leave_wr_exec, leave_wr_memk, leave_wr_ww. auto.
+Qed.
+
+Lemma maybe_leave_ww : forall t g g2 ns, maybe_notify pref (leave_ww t g) = (g2, ns) ->
+  g_exec g2 = g_exec g /\ memk t (g_ww g2) = false /\ memk t (g_wr g2) = memk t (g_wr g).
+Proof.
+  intros t g g2 ns E. pose proof (maybe_notify_shape pref (leave_ww t g)) as S. rewrite E in S. cbn [fst] in S.
+  destruct S as [_ He _ Hr Hw _ _]. rewrite He, Hr, Hw, leave_ww_exec, leave_ww_memk, leave_ww_wr. auto.
+Qed.
+
+Ltac fin0 :=
+  cbn [fst snd] in *; mk_inv; cbn [e_ro e_rw fst snd] in *; subst; cbn [e_ro e_rw fst snd flag] in *;
+  repeat match goal with Hle : ?x <= 0 |- _ => apply Nat.le_0_r in Hle end; subst; try discriminate; try lia.
+Ltac fin1 :=
+  constructor; unfold wf, exp_ent, hold, inwr, inww; cbn [l_stk l_act l_op l_hro l_hrw fst snd flag g_exec g_wr g_ww g_total set_exec set_wr set_ww set_total];
+  rewrite ?leave_wr_exec, ?leave_wr_ww, ?leave_wr_memk, ?leave_ww_exec, ?leave_ww_wr, ?leave_ww_memk;
+  cbn [g_exec g_wr g_ww g_total set_exec set_wr set_ww set_total];
+  rewrite ?find_setv_same, ?find_remove_same, ?memk_setv_same, ?memk_remove_same, ?mk_ent_S_l, ?mk_ent_S_r;
+  try (rewrite mk_ent_pos by lia).
+Ltac fin2 := auto; try solve [intuition (eauto; congruence || lia)];
+  try solve [repeat split; auto; try lia; eexists; split; [reflexivity|];
+             first [left; reflexivity
+                   | right; split; [first [discriminate | assumption | congruence]|];
+                     first [left; reflexivity | right; eexists; split; [reflexivity|]; intuition congruence]]].
+Ltac fin := fin0; fin1; fin2.
+
+Lemma self_enter_ro : forall t g d stk op hro hrw g' l' o,
+  linv g t (mkL (AEnterRO d) stk op hro hrw) ->
+  step pref t CRun g (mkL (AEnterRO d) stk op hro hrw) = Some (g', l', o) -> linv g' t l'.
+Proof.
+  intros t g d stk op hro hrw g' l' o [Hwf Hex Hwr Hww] H.
+  unfold wf, exp_ent, hold, inwr, inww in *. cbn [l_stk l_act l_op l_hro l_hrw fst snd] in *.
+  unfold step, run_cs, keep in H. cbn [l_act l_stk l_op l_hro l_hrw cs] in H. unfold enter_ro in H.
+  destruct stk as [|[n i d'|n|n i lrw] [|]]; try contradiction.
+  - (* plain call *)
+    subst op. unfold complete in H. cbn [finish l_stk l_op l_hro l_hrw ghost_ro ghost_rw] in H.
+    destruct (find t (g_exec g)) as [e|] eqn:Hf.
+    + inversion H; subst; clear H. fin.
+    + destruct (ok_readers pref g).
+      * inversion H; subst; clear H. fin.
+      * destruct d.
+        -- destruct (pool_get (g_pool g)) as [c p]. inversion H; subst; clear H. fin.
+        -- inversion H; subst; clear H. fin.
+        -- destruct (pool_get (g_pool g)) as [c p]. inversion H; subst; clear H. fin.
+  - destruct Hwf as [Hc _]. discriminate.
+  - destruct Hwf as (_ & _ & _ & d0 & _ & [Hc|(_ & [Hc|(ok & Hc & _)])]); discriminate.
+  - (* re-taking read lock number i of n at the end of the upgrade path *)
+    destruct Hwf as (Hin & Hhro & Hhrw & Hlrw & (d0 & Hop) & [Hact|(_ & _ & [Hc|Hc])]); try discriminate.
+    inversion Hact; subst d. subst op hro hrw.
+    unfold complete in H. cbn [finish l_stk l_op l_hro l_hrw ghost_ro ghost_rw] in H.
+    destruct (find t (g_exec g)) as [e|] eqn:Hf.
+    + destruct (Nat.ltb (S i) n) eqn:Hlt; [apply Nat.ltb_lt in Hlt|apply Nat.ltb_ge in Hlt].
+      * inversion H; subst; clear H. fin.
+      * assert (n = S i) by lia. subst n.
+        destruct Hlrw; subst lrw; inversion H; subst; clear H; fin.
+    + destruct (ok_readers pref g).
+      * destruct (Nat.ltb (S i) n) eqn:Hlt; [apply Nat.ltb_lt in Hlt|apply Nat.ltb_ge in Hlt].
+        -- inversion H; subst; clear H. fin.
+        -- assert (n = S i) by lia. subst n.
+           destruct Hlrw; subst lrw; inversion H; subst; clear H; fin.
+      * destruct (pool_get (g_pool g)) as [c p]. inversion H; subst; clear H.
+        destruct Hlrw; subst lrw; fin.
+Qed.
+
+Lemma self_woke_ro : forall t g d ok stk op hro hrw g' l' o,
+  linv g t (mkL (AWokeRO d ok) stk op hro hrw) ->
+  step pref t CRun g (mkL (AWokeRO d ok) stk op hro hrw) = Some (g', l', o) -> linv g' t l'.
+Proof.
+  intros t g d ok stk op hro hrw g' l' o [Hwf Hex Hwr Hww] H.
+  unfold wf, exp_ent, hold, inwr, inww in *. cbn [l_stk l_act l_op l_hro l_hrw fst snd] in *.
+  unfold step, run_cs, keep in H. cbn [l_act l_stk l_op l_hro l_hrw cs] in H. unfold woke_ro in H.
+  destruct stk as [|[n i d'|n|n i lrw] [|]]; try contradiction.
+  - destruct Hwf as (Hop & Hd & Hok & Hhro & Hhrw). subst op hro hrw.
+    unfold complete in H. cbn [finish l_stk l_op l_hro l_hrw ghost_ro ghost_rw] in H.
+    destruct ok; cbn [negb] in H.
+    + destruct (ok_readers pref g).
+      * inversion H; subst; clear H. fin.
+      * inversion H; subst; clear H. fin.
+    + destruct (maybe_notify pref (leave_wr t g)) as [g2 ns2] eqn:E. apply maybe_leave_wr in E. destruct E as (He & Hr & Hw).
+      inversion H; subst; clear H. fin0; fin1; rewrite ?He, ?Hr, ?Hw; fin2.
+  - destruct Hwf as [Hc _]. discriminate.
+  - destruct Hwf as (_ & _ & _ & d0 & _ & [Hc|(_ & [Hc|(ok0 & Hc & _)])]); discriminate.
+  - destruct Hwf as (Hin & Hhro & Hhrw & Hlrw & (d0 & Hop) & [Hact|(Hi & Hl & [Hc|Hc])]); try discriminate.
+    inversion Hc; subst d ok. subst op hro hrw i lrw.
+    unfold complete in H. cbn [finish l_stk l_op l_hro l_hrw ghost_ro ghost_rw negb] in H.
+    destruct (ok_readers pref g).
+    + destruct (Nat.ltb 1 n) eqn:Hlt; [apply Nat.ltb_lt in Hlt|apply Nat.ltb_ge in Hlt].
+      * inversion H; subst; clear H. fin.
+      * assert (n = 1) by lia. subst n. inversion H; subst; clear H. fin.
+    + inversion H; subst; clear H. fin.
+Qed.
+
+Lemma self_park_ro : forall t g d c stk op hro hrw g' l' o,
+  linv g t (mkL (AParkRO d) stk op hro hrw) ->
+  step pref t c g (mkL (AParkRO d) stk op hro hrw) = Some (g', l', o) -> linv g' t l'.
+Proof.
+  intros t g d c stk op hro hrw g' l' o [Hwf Hex Hwr Hww] H.
+  unfold wf, exp_ent, hold, inwr, inww in *. cbn [l_stk l_act l_op l_hro l_hrw fst snd] in *.
+  unfold step, keep in H. cbn [l_act l_stk l_op l_hro l_hrw] in H.
+  assert (Hm : forall x, memk t (setc t x (g_wr g)) = true) by (intros; rewrite memk_setc; auto).
+  destruct c.
+  - destruct (find t (g_wr g)) as [[|k]|]; try discriminate. inversion H; subst; clear H.
+    destruct stk as [|[n i d'|n|n i lrw] [|]]; try contradiction.
+    + fin0; fin1; rewrite ?Hm; fin2.
+    + destruct Hwf as [Hc _]. discriminate.
+    + destruct Hwf as (_ & _ & _ & d0 & _ & [Hc|(_ & [Hc|(ok0 & Hc & _)])]); discriminate.
+    + destruct Hwf as (Hin & Hhro & Hhrw & Hlrw & (d0 & Hop) & [Hact|(Hi & Hl & [Hc|Hc])]); try discriminate.
+      inversion Hc; subst. fin0; fin1; rewrite ?Hm; fin2.
+  - destruct d; try discriminate. inversion H; subst; clear H.
+    destruct stk as [|[n i d'|n|n i lrw] [|]]; try contradiction.
+    + fin.
+    + destruct Hwf as [Hc _]. discriminate.
+    + destruct Hwf as (_ & _ & _ & d0 & _ & [Hc|(_ & [Hc|(ok0 & Hc & _)])]); discriminate.
+    + destruct Hwf as (Hin & Hhro & Hhrw & Hlrw & (d0 & Hop) & [Hact|(Hi & Hl & [Hc|Hc])]); discriminate.
+Qed.
+
+
+Lemma shape_facts : forall g1 g2, same_shape g1 g2 ->
+  g_exec g2 = g_exec g1 /\ (forall k, memk k (g_wr g2) = memk k (g_wr g1)) /\ (forall k, memk k (g_ww g2) = memk k (g_ww g1)).
+Proof. intros g1 g2 [_ He _ Hr Hw _ _]. auto. Qed.
+
+Lemma maybe_facts : forall g1 g2 ns, maybe_notify pref g1 = (g2, ns) ->
+  g_exec g2 = g_exec g1 /\ (forall k, memk k (g_wr g2) = memk k (g_wr g1)) /\ (forall k, memk k (g_ww g2) = memk k (g_ww g1)).
+Proof.
+  intros g1 g2 ns E. apply shape_facts. pose proof (maybe_notify_shape pref g1) as S. rewrite E in S. exact S.
+Qed.
+
+Lemma self_enter_rw : forall t g d stk op hro hrw g' l' o,
+  linv g t (mkL (AEnterRW d) stk op hro hrw) ->
+  step pref t CRun g (mkL (AEnterRW d) stk op hro hrw) = Some (g', l', o) -> linv g' t l'.
+Proof.
+  intros t g d stk op hro hrw g' l' o [Hwf Hex Hwr Hww] H.
+  unfold wf, exp_ent, hold, inwr, inww in *. cbn [l_stk l_act l_op l_hro l_hrw fst snd] in *.
+  unfold step, run_cs, keep in H. cbn [l_act l_stk l_op l_hro l_hrw cs] in H. unfold enter_rw in H.
+  destruct stk as [|[n i d'|n|n i lrw] [|]]; try contradiction.
+  - subst op. unfold complete in H. cbn [finish l_stk l_op l_hro l_hrw ghost_ro ghost_rw] in H.
+    destruct (find t (g_exec g)) as [e|] eqn:Hf.
+    + destruct (Nat.ltb 0 (e_rw e) || Nat.eqb (length (g_exec g)) 1) eqn:Hb.
+      * inversion H; subst; clear H. fin.
+      * apply orb_false_elim in Hb. destruct Hb as [Hb _]. apply Nat.ltb_ge in Hb.
+        destruct d.
+        -- destruct (e_ro e) as [|r] eqn:Hro.
+           ++ exfalso. fin0.
+           ++ inversion H; subst; clear H. fin0. fin1; rewrite ?Nat.sub_0_r; fin2.
+        -- inversion H; subst; clear H. fin.
+        -- destruct (e_ro e) as [|r] eqn:Hro.
+           ++ exfalso. fin0.
+           ++ inversion H; subst; clear H. fin0. fin1; rewrite ?Nat.sub_0_r; fin2.
+    + destruct (ok_writer t g).
+      * inversion H; subst; clear H. fin.
+      * destruct d.
+        -- destruct (pool_get (g_pool g)) as [c p]. inversion H; subst; clear H. fin.
+        -- inversion H; subst; clear H. fin.
+        -- destruct (pool_get (g_pool g)) as [c p]. inversion H; subst; clear H. fin.
+  - destruct Hwf as [Hc _]. discriminate.
+  - (* the inner LockReadWriteAux of the upgrade path *)
+    destruct Hwf as (Hn & Hhro & Hhrw & d0 & Hop & [Hact|(_ & [Hc|(ok0 & Hc & _)])]); try discriminate.
+    inversion Hact; subst d0. subst op hro hrw.
+    cbn [mk_ent] in Hex. rewrite Hex in H.
+    unfold complete in H. cbn [finish l_stk l_op l_hro l_hrw ghost_ro ghost_rw] in H.
+    destruct n as [|m]; [lia|].
+    destruct (ok_writer t g).
+    + inversion H; subst; clear H. fin.
+    + destruct d.
+      * destruct (pool_get (g_pool g)) as [c p]. inversion H; subst; clear H. fin.
+      * inversion H; subst; clear H. fin.
+      * destruct (pool_get (g_pool g)) as [c p]. inversion H; subst; clear H. fin.
+  - destruct Hwf as (Hin & Hhro & Hhrw & Hlrw & (d0 & Hop) & [Hact|(Hi & Hl & [Hc|Hc])]); discriminate.
+Qed.
+
+
+Lemma self_woke_rw : forall t g d ok stk op hro hrw g' l' o,
+  linv g t (mkL (AWokeRW d ok) stk op hro hrw) ->
+  step pref t CRun g (mkL (AWokeRW d ok) stk op hro hrw) = Some (g', l', o) -> linv g' t l'.
+Proof.
+  intros t g d ok stk op hro hrw g' l' o [Hwf Hex Hwr Hww] H.
+  unfold wf, exp_ent, hold, inwr, inww in *. cbn [l_stk l_act l_op l_hro l_hrw fst snd] in *.
+  unfold step, run_cs, keep in H. cbn [l_act l_stk l_op l_hro l_hrw cs] in H. unfold woke_rw in H.
+  destruct stk as [|[n i d'|n|n i lrw] [|]]; try contradiction.
+  - destruct Hwf as (Hop & Hd & Hok & Hhro & Hhrw). subst op hro hrw.
+    unfold complete in H. cbn [finish l_stk l_op l_hro l_hrw ghost_ro ghost_rw] in H.
+    destruct ok; cbn [negb] in H.
+    + destruct (ok_writer t g).
+      * inversion H; subst; clear H. fin.
+      * inversion H; subst; clear H. fin.
+    + destruct (maybe_notify pref (leave_ww t g)) as [g2 ns2] eqn:E. apply maybe_leave_ww in E. destruct E as (He & Hw & Hr).
+      inversion H; subst; clear H. fin0; fin1; rewrite ?He, ?Hr, ?Hw; fin2.
+  - destruct Hwf as [Hc _]. discriminate.
+  - destruct Hwf as (Hn & Hhro & Hhrw & d0 & Hop & [Hc|(Hd & [Hc|(ok0 & Hc & Hok)])]); try discriminate.
+    inversion Hc; subst d0 ok0. subst op hro hrw.
+    unfold complete in H. cbn [finish l_stk l_op l_hro l_hrw ghost_ro ghost_rw] in H.
+    destruct n as [|m]; [lia|].
+    destruct ok; cbn [negb] in H.
+    + destruct (ok_writer t g).
+      * inversion H; subst; clear H. fin.
+      * inversion H; subst; clear H. fin.
+    + destruct (maybe_notify pref (leave_ww t g)) as [g2 ns2] eqn:E. apply maybe_leave_ww in E. destruct E as (He & Hw & Hr).
+      inversion H; subst; clear H. fin0; fin1; rewrite ?He, ?Hr, ?Hw; fin2.
+  - destruct Hwf as (Hin & Hhro & Hhrw & Hlrw & (d0 & Hop) & [Hact|(Hi & Hl & [Hc|Hc])]); discriminate.
+Qed.
+
+Lemma self_park_rw : forall t g d c stk op hro hrw g' l' o,
+  linv g t (mkL (AParkRW d) stk op hro hrw) ->
+  step pref t c g (mkL (AParkRW d) stk op hro hrw) = Some (g', l', o) -> linv g' t l'.
+Proof.
+  intros t g d c stk op hro hrw g' l' o [Hwf Hex Hwr Hww] H.
+  unfold wf, exp_ent, hold, inwr, inww in *. cbn [l_stk l_act l_op l_hro l_hrw fst snd] in *.
+  unfold step, keep in H. cbn [l_act l_stk l_op l_hro l_hrw] in H.
+  assert (Hm : forall x, memk t (setc t x (g_ww g)) = true) by (intros; rewrite memk_setc; auto).
+  destruct c.
+  - destruct (find t (g_ww g)) as [[|k]|]; try discriminate. inversion H; subst; clear H.
+    destruct stk as [|[n i d'|n|n i lrw] [|]]; try contradiction.
+    + fin0; fin1; rewrite ?Hm; fin2.
+    + destruct Hwf as [Hc _]. discriminate.
+    + destruct Hwf as (Hn & Hhro & Hhrw & d0 & Hop & [Hc|(Hd & [Hc|(ok0 & Hc & Hok)])]); try discriminate.
+      inversion Hc; subst. fin0; fin1; rewrite ?Hm; fin2.
+    + destruct Hwf as (Hin & Hhro & Hhrw & Hlrw & (d0 & Hop) & [Hact|(Hi & Hl & [Hc|Hc])]); discriminate.
+  - destruct d; try discriminate. inversion H; subst; clear H.
+    destruct stk as [|[n i d'|n|n i lrw] [|]]; try contradiction.
+    + fin.
+    + destruct Hwf as [Hc _]. discriminate.
+    + destruct Hwf as (Hn & Hhro & Hhrw & d0 & Hop & [Hc|(Hd & [Hc|(ok0 & Hc & Hok)])]); try discriminate.
+      inversion Hc; subst. fin.
+    + destruct Hwf as (Hin & Hhro & Hhrw & Hlrw & (d0 & Hop) & [Hact|(Hi & Hl & [Hc|Hc])]); discriminate.
+Qed.
+
+Lemma andb_eqb0 : forall a b, Nat.eqb a 0 && Nat.eqb b 0 = true -> a = 0 /\ b = 0.
+Proof. intros a b H. apply andb_prop in H. destruct H as [Ha Hb]. apply Nat.eqb_eq in Ha, Hb. auto. Qed.
+
+Lemma andb_eqb0_false : forall a b, Nat.eqb a 0 && Nat.eqb b 0 = false -> 0 < a + b.
+Proof.
+  intros a b H. destruct a, b; cbn in H; try discriminate; lia.
+Qed.
+
+Lemma self_unlock_ro : forall t g stk op hro hrw g' l' o,
+  linv g t (mkL AEnterUnRO stk op hro hrw) ->
+  step pref t CRun g (mkL AEnterUnRO stk op hro hrw) = Some (g', l', o) -> linv g' t l'.
+Proof.
+  intros t g stk op hro hrw g' l' o [Hwf Hex Hwr Hww] H.
+  unfold wf, exp_ent, hold, inwr, inww in *. cbn [l_stk l_act l_op l_hro l_hrw fst snd] in *.
+  unfold step, run_cs, keep in H. cbn [l_act l_stk l_op l_hro l_hrw cs] in H. unfold unlock_ro in H.
+  destruct stk as [|[n i d'|n|n i lrw] [|]]; try contradiction.
+  - subst op. unfold complete in H. cbn [finish l_stk l_op l_hro l_hrw ghost_ro ghost_rw] in H.
+    destruct (find t (g_exec g)) as [e|] eqn:Hf.
+    + destruct (e_ro e) as [|r] eqn:Hro.
+      * inversion H; subst; clear H. fin.
+      * destruct (Nat.eqb r 0 && Nat.eqb (e_rw e) 0) eqn:Hz.
+        -- apply andb_eqb0 in Hz. destruct Hz as [Hr0 Hw0].
+           destruct (maybe_notify pref (set_exec g (remove t (g_exec g)))) as [g2 ns2] eqn:E.
+           apply maybe_facts in E. destruct E as (He & Hr & Hw). cbn [set_exec g_exec g_wr g_ww] in He, Hr, Hw.
+           inversion H; subst; clear H. fin0; fin1; rewrite ?He, ?Hr, ?Hw, ?find_remove_same; fin2.
+        -- apply andb_eqb0_false in Hz. inversion H; subst; clear H. fin.
+    + inversion H; subst; clear H. fin.
+  - (* giving up read lock number i of n at the start of the upgrade path *)
+    destruct Hwf as (_ & Hin & Hhro & Hhrw & Hop). subst op hro hrw.
+    unfold complete in H. cbn [finish l_stk l_op l_hro l_hrw ghost_ro ghost_rw] in H.
+    cbn [fst snd] in Hex. rewrite mk_ent_pos in Hex by lia. rewrite Hex in H. cbn [e_ro e_rw] in H.
+    destruct (n - i) as [|r] eqn:Hni; [lia|].
+    destruct (Nat.eqb r 0 && Nat.eqb 0 0) eqn:Hz.
+    + apply andb_eqb0 in Hz. destruct Hz as [Hr0 _]. subst r.
+      destruct (maybe_notify pref (set_exec g (remove t (g_exec g)))) as [g2 ns2] eqn:E.
+      apply maybe_facts in E. destruct E as (He & Hr & Hw). cbn [set_exec g_exec g_wr g_ww] in He, Hr, Hw.
+      destruct (Nat.ltb (S i) n) eqn:Hlt; [apply Nat.ltb_lt in Hlt; lia|].
+      inversion H; subst; clear H. fin0; fin1; rewrite ?He, ?Hr, ?Hw, ?find_remove_same; fin2.
+    + apply andb_eqb0_false in Hz.
+      destruct (Nat.ltb (S i) n) eqn:Hlt; [apply Nat.ltb_lt in Hlt|apply Nat.ltb_ge in Hlt; lia].
+      inversion H; subst; clear H. fin0. fin1; try (replace (n - S i) with r by lia; try (rewrite mk_ent_pos by lia); reflexivity); fin2.
+  - destruct Hwf as (_ & _ & _ & d0 & _ & [Hc|(_ & [Hc|(ok0 & Hc & _)])]); discriminate.
+  - destruct Hwf as (Hin & Hhro & Hhrw & Hlrw & (d0 & Hop) & [Hact|(Hi & Hl & [Hc|Hc])]); discriminate.
+Qed.
+
+
+Lemma unlock_rw_tail_shape : forall g1 (c1 c2 c3 : bool) g2 ns,
+  (if c1 then (if c2 then notify_all_readers g1 else if c3 then notify_some pref g1 else (g1, [])) else (g1, [])) = (g2, ns) ->
+  same_shape g1 g2.
+Proof.
+  intros g1 c1 c2 c3 g2 ns E.
+  destruct c1; [destruct c2; [|destruct c3]|].
+  - change g2 with (fst (g2, ns)). rewrite <- E. apply notify_all_readers_shape.
+  - change g2 with (fst (g2, ns)). rewrite <- E. apply notify_some_shape.
+  - inversion E. apply same_shape_refl.
+  - inversion E. apply same_shape_refl.
+Qed.
+
+Lemma self_unlock_rw : forall t g stk op hro hrw g' l' o,
+  linv g t (mkL AEnterUnRW stk op hro hrw) ->
+  step pref t CRun g (mkL AEnterUnRW stk op hro hrw) = Some (g', l', o) -> linv g' t l'.
+Proof.
+  intros t g stk op hro hrw g' l' o [Hwf Hex Hwr Hww] H.
+  unfold wf, exp_ent, hold, inwr, inww in *. cbn [l_stk l_act l_op l_hro l_hrw fst snd] in *.
+  unfold step, run_cs, keep in H. cbn [l_act l_stk l_op l_hro l_hrw cs] in H. unfold unlock_rw in H.
+  destruct stk as [|[n i d'|n|n i lrw] [|]]; try contradiction.
+  - subst op. unfold complete in H. cbn [finish l_stk l_op l_hro l_hrw ghost_ro ghost_rw] in H.
+    destruct (find t (g_exec g)) as [e|] eqn:Hf.
+    + destruct (e_rw e) as [|w] eqn:Hrw.
+      * inversion H; subst; clear H. fin.
+      * match type of H with context [if Nat.eqb (pred (g_total g)) 0 then ?a else ?b] =>
+          destruct (if Nat.eqb (pred (g_total g)) 0 then a else b) as [g2 ns2] eqn:E end.
+        apply unlock_rw_tail_shape in E. apply shape_facts in E. destruct E as (He & Hr & Hw).
+        cbn [g_exec g_wr g_ww] in He, Hr, Hw.
+        inversion H; subst; clear H.
+        destruct (Nat.eqb w 0 && Nat.eqb (e_ro e) 0) eqn:Hz.
+        -- apply andb_eqb0 in Hz. destruct Hz as [Hw0 Hr0].
+           fin0; fin1; rewrite ?He, ?Hr, ?Hw, ?find_remove_same; fin2.
+        -- apply andb_eqb0_false in Hz.
+           fin0; fin1; rewrite ?He, ?Hr, ?Hw, ?find_setv_same; try (rewrite mk_ent_pos by lia); fin2.
+    + inversion H; subst; clear H. fin.
+  - destruct Hwf as [Hc _]. discriminate.
+  - destruct Hwf as (_ & _ & _ & d0 & _ & [Hc|(_ & [Hc|(ok0 & Hc & _)])]); discriminate.
+  - destruct Hwf as (Hin & Hhro & Hhrw & Hlrw & (d0 & Hop) & [Hact|(Hi & Hl & [Hc|Hc])]); discriminate.
+Qed.
+
+(* ---- every transition keeps the thread that makes it consistent with the tables ---- *)
+Lemma step_self : forall t c g l g' l' o, linv g t l -> step pref t c g l = Some (g', l', o) -> linv g' t l'.
+Proof.
+  intros t c g [a stk op hro hrw] g' l' o Hl H.
+  destruct a.
+  - (* AIdle: no transition *) unfold step, run_cs in H. destruct c; cbn in H; discriminate.
+  - destruct c; [eapply self_enter_ro; eauto | unfold step in H; cbn in H; discriminate].
+  - destruct c; [eapply self_enter_rw; eauto | unfold step in H; cbn in H; discriminate].
+  - destruct c; [eapply self_unlock_ro; eauto | unfold step in H; cbn in H; discriminate].
+  - destruct c; [eapply self_unlock_rw; eauto | unfold step in H; cbn in H; discriminate].
+  - eapply self_park_ro; eauto.
+  - destruct c; [eapply self_woke_ro; eauto | unfold step in H; cbn in H; discriminate].
+  - eapply self_park_rw; eauto.
+  - destruct c; [eapply self_woke_rw; eauto | unfold step in H; cbn in H; discriminate].
+Qed.
+
+
+Lemma step_mode : forall t c g l g' l' o, mode g -> step pref t c g l = Some (g', l', o) -> mode g'.
+Proof.
+  intros t c g l g' l' o Hm. unfold step. destruct c.
+  - destruct (l_act l) eqn:Ha;
+      try (unfold run_cs; rewrite Ha;
+           match goal with |- context [cs pref t ?a g] => destruct (cs pref t a g) as [[[g1 ns] out]|] eqn:E end;
+           [|discriminate]; apply cs_mode in E; auto;
+           destruct out; [destruct (complete l s)|..]; intros H; inversion H; subst; auto).
+    + destruct (find t (g_wr g)) as [[|n]|]; try discriminate. intros H; inversion H; subst. exact Hm.
+    + destruct (find t (g_ww g)) as [[|n]|]; try discriminate. intros H; inversion H; subst. exact Hm.
+  - destruct (l_act l); try discriminate; destruct d; try discriminate; intros H; inversion H; subst; auto.
+Qed.
+
+Lemma begin_self : forall g t o l l', linv g t l -> begin_op o l = Some l' -> linv g t l'.
+Proof.
+  intros g t o [a stk op hro hrw] l' [Hwf Hex Hwr Hww] H.
+  unfold begin_op in H. cbn [l_act l_stk l_hro l_hrw] in H.
+  destruct a; try discriminate. destruct stk; try discriminate. inversion H; subst; clear H.
+  unfold wf, exp_ent, hold, inwr, inww in *. cbn [l_stk l_act l_op l_hro l_hrw fst snd] in *.
+  destruct o; constructor; unfold wf, exp_ent, hold, inwr, inww; cbn [l_stk l_act l_op l_hro l_hrw fst snd act_of_op]; auto.
+Qed.
+
+Lemma linv_frame : forall t g g' k l, frame_ok t g g' -> k <> t -> linv g k l -> linv g' k l.
+Proof.
+  intros t g g' k l [Fe Fr Fw] Hk [Hwf Hex Hwr Hww]. constructor; auto.
+  - rewrite Fe; auto.
+  - rewrite Fr; auto.
+  - rewrite Fw; auto.
+Qed.
+
+Lemma inv_init : inv sys0.
+Proof.
+  split.
+  - left. split; [reflexivity|]. intros t e [].
+  - intros t. constructor; cbn; auto.
+Qed.
+
+Lemma inv_step : forall s lab s' o, inv s -> sys_step pref s lab = Some (s', o) -> inv s'.
+Proof.
+  intros s lab s' o [Hm Hl] H. destruct lab as [t op|t c]; cbn [sys_step] in H.
+  - destruct (begin_op op (s_l s t)) as [l'|] eqn:E; [|discriminate]. inversion H; subst; clear H. cbn [s_g s_l].
+    split; [exact Hm|]. intros k. cbn [s_g s_l]. unfold upd. destruct (Nat.eqb k t) eqn:Ek.
+    + apply Nat.eqb_eq in Ek. subst k. eapply begin_self; [apply Hl | exact E].
+    + apply Hl.
+  - destruct (step pref t c (s_g s) (s_l s t)) as [[[g' l'] o']|] eqn:E; [|discriminate]. inversion H; subst; clear H. cbn [s_g s_l].
+    split; [eapply step_mode; eauto|].
+    intros k. cbn [s_g s_l]. unfold upd. destruct (Nat.eqb k t) eqn:Ek.
+    + apply Nat.eqb_eq in Ek. subst k. eapply step_self; [apply Hl | exact E].
+    + apply Nat.eqb_neq in Ek. eapply linv_frame; eauto. eapply step_frame; eauto.
+Qed.
+
+Theorem inv_reachable : forall s, reachable pref s -> inv s.
+Proof.
+  intros s H. induction H as [|s lab s' o Hr IH Hs]; [apply inv_init | eapply inv_step; eauto].
+Qed.
+
 End P.
